@@ -44,6 +44,47 @@ def replay_script(chk, scalar, lines, expect, why):
     return replay
 
 
+def api_catalogue(w, scalar):
+    """every MASA::masa_*<scalar>(...) defined in the IR: (linked name, API name, demangled parameter list)"""
+    import re
+    out = []
+    for n in sorted(w.prog.functions):
+        m = re.match(r'^(?:.* )?MASA::(masa_\w+)<%s>\((.*)\)$' % re.escape(scalar), w.models.demangled(n))
+        if m:
+            out.append((n, m.group(1), m.group(2)))
+    return out
+
+
+def sig_void(w, fn):
+    return w.models.demangled(fn).startswith('void ')
+
+
+def rpx(scalar):
+    import replay as rp
+    return rp.SCALAR_CXX[scalar]
+
+
+def two_process_replay(chk, scalar, lines, why):
+    """runs the script twice on the real library -- without and with an argument (= other registry populated) -- and compares the 'R call' lines"""
+    def replay(ob, model):
+        import replay as rp
+        cxx = rp.SCALAR_CXX[scalar]
+        src = ('#include <masa.h>\n#include <cstdio>\n#include <string>\n#include <vector>\n#include <cstdlib>\nusing namespace MASA;\ntypedef %s Scalar;\n'
+               'static Scalar cb_(Scalar t){ return (Scalar)0.5 + t*t/(Scalar)7; }\n'
+               'static void pr_(Scalar v){ printf("%%.21Lg", (long double)v); }\nstatic void pr_(int v){ printf("%%d", v); }\n'
+               'int main(){\n%s\n return 0;}\n') % (cxx, '\n'.join(lines))
+        rc1, out1, err1 = chk.lib().run(src)
+        rc2, out2, err2 = chk.lib().run(src, env={'MV_OTHER': '1'})
+        l1 = [l for l in out1.splitlines() if l.startswith('R call')]
+        l2 = [l for l in out2.splitlines() if l.startswith('R call')]
+        bad = rc1 != rc2 or l1 != l2 or (rc2 == 0 and 'R other_untouched 1' not in out2)
+        if bad:
+            path = chk.save_replay(ob, dict(obligation=ob.name, alone=dict(rc=rc1, stdout=out1[-1500:]), with_other=dict(rc=rc2, stdout=out2[-1500:]), why=why), src)
+            return dict(reproduced=True, path=path, detail='%s: alone rc=%s %r, with the other registry populated rc=%s %r' % (why, rc1, l1, rc2, l2))
+        return dict(reproduced=False, path=None, detail='real library: same result with and without the other registry')
+    return replay
+
+
 def body(chk):
     w = chk.world()
     K = 2 if chk.tier == 'quick' else 3
@@ -230,6 +271,95 @@ def body(chk):
                             key='independence:%s' % oname, family='independence', sample=dict(obligation=oname, alone=str(ra)[:300], with_other=str(rb)[:300]),
                             replay=replay_script(chk, scalar, ['masa_init<%s>("own","euler_1d"); masa_init<%s>("oth","euler_3d"); int d_=0; std::string n_; masa_get_dimension<%s>(&d_); masa_get_name<%s>(&n_);' % (scalar, other, scalar, scalar),
                                                                'printf("\\nR own %s %d\\n", n_.c_str(), d_);'], ['R own euler_1d 1'], '%s<%s> depends on the %s registry' % (oname, scalar, other)))
+        # ---- ... and the same for EVERY entry point MASA::masa_*<scalar> found in the IR (evaluators of every arity, purge, init_param,
+        #      vectors, display, sanity check): generic arguments, other registry empty vs. populated; no store into the other registry
+        w.models.callback_hook = lambda ex, cv, args, ins: tm.uf('call:' + cv.p, *[a if isinstance(a, T) else tm.iconst(a) for a in args])
+        fs = 8 if scalar == 'double' else 16
+        done = set(o[0] for o in observers) | set(['masa_init', 'masa_select_mms', 'masa_test_default', 'masa_test_poly', 'masa_printid'])
+        swept = 0
+        for fn, aname, sig in api_catalogue(w, scalar):
+            key_ = (aname, sig)
+            if aname in done and not aname.startswith('masa_eval_'):
+                continue
+            parts = [x.strip() for x in sig.split(',')] if sig.strip() else []
+
+            def gthunk(ex, fn=fn, parts=parts):
+                args, outs = [], []
+                for k, t_ in enumerate(parts):
+                    if t_ == scalar:
+                        args.append(tm.sym('arg%d' % k))
+                    elif t_ == 'int':
+                        args.append(tm.sym('iarg%d' % k, 'I'))
+                    elif '(*)' in t_:
+                        args.append(tm.sym('callback%d' % k, 'P'))
+                    elif t_ == 'std::string':
+                        args.append(S.new_string(ex, 'L'))
+                    elif t_ == 'std::string*':
+                        sp = S.new_string(ex, '')
+                        args.append(sp)
+                        outs.append(('str', sp))
+                    elif t_ == 'int*':
+                        r_ = ex.st.new_region('alloca', 4, 'harness:int')
+                        args.append(Ptr(r_.rid, 0))
+                        outs.append(('int', r_))
+                    elif t_.startswith('std::vector<'):
+                        a_ = ex.st.new_region('alloca', 8, 'harness:vec')
+                        models.new_vec(ex, Ptr(a_.rid, 0), fs, 2, lambda i: tm.sym('ve%d' % i))
+                        args.append(Ptr(a_.rid, 0))
+                        outs.append(('vec', a_))
+                    else:
+                        raise KeyError(t_)
+                r = ex.call(fn, args)
+                res = [repr(r)]
+                for kind, o in outs:
+                    if kind == 'str':
+                        res.append(repr(models.get_str(ex, o).v))
+                    elif kind == 'int':
+                        res.append(repr(ex.st.mem.get((o.rid, 0), (4, None))[1]))
+                    else:
+                        ov = ex.st.side[(o.rid, 0)]
+                        res.append(repr([ex.load(Ptr(ov.buf, i * fs), fs, 'f64') for i in range(ov.n)] if isinstance(ov.n, int) else ov.n))
+                return tuple(res)
+
+            def summ(paths, base):
+                out = []
+                for p in paths:
+                    couts = tuple(str(e[1]) for e in p['st'].events[len(base.events):] if e[0] == 'cout')
+                    out.append((repr(p['ret']), couts, repr(p['terminal']), repr(p['error']) if p['error'] is not None else None, tuple(sorted((c.id, b) for c, b in p['pc']))))
+                return sorted(out)
+            try:
+                pa = ex.explore(st_alone, gthunk, 32)
+                pb = ex.explore(sto, gthunk, 32)
+            except (KeyError, ExecError) as e_:
+                chk.notes.append('independence sweep: %s(%s) not executed (%s)' % (aname, sig, str(e_)[:80]))
+                continue
+            swept += 1
+            chk.functions.add(fn)
+            ra, rb = summ(pa, st_alone), summ(pb, sto)
+            touched = False
+            for p in pb:
+                if p['terminal'] is not None or p['error'] is not None:
+                    continue
+                po1, entso1 = R.snapshot(w, p['st'], other)
+                if po1 != po or entso1 != entso or any(x[0] in (rid_o, po.rid) for x in ext_writes(p, sto)):
+                    touched = True
+            sc_o = 'long double' if other == 'long double' else 'double'
+            arglist = []
+            for k, t_ in enumerate(parts):
+                arglist.append('(Scalar)0.375' if t_ == scalar else '1' if t_ == 'int' else 'cb_' if '(*)' in t_ else 'std::string("L")' if t_ == 'std::string' else '&n_' if t_ == 'std::string*' else '&d_' if t_ == 'int*' else 'v_')
+            call = '%s<Scalar>(%s)' % (aname, ', '.join(arglist))
+            # replay: the call's printed result with the other registry empty (process A, own handle only) must equal the one with the other
+            # registry populated and modified (process B); B also checks the other registry's parameter afterwards
+            lines = ['std::string n_; int d_ = 0; std::vector<Scalar> v_(2, (Scalar)0.5); (void)n_; (void)d_;',
+                     'masa_init<Scalar>("own","euler_3d");',
+                     'if(getenv("MV_OTHER")) { masa_init<%s>("oth","euler_1d"); masa_set_param<%s>("L",(%s)2.5); }' % (other, other, rpx(other)),
+                     'printf("\\nR call "); pr_(%s); printf(" %%s %%d %%d\\n", n_.c_str(), d_, (int)v_.size());' % call if not sig_void(w, fn) else '%s; printf("\\nR call void %%s %%d %%d\\n", n_.c_str(), d_, (int)v_.size());' % call,
+                     'if(getenv("MV_OTHER")) printf("R other_untouched %%d\\n", masa_get_param<%s>("L")==(%s)2.5);' % (other, rpx(other))]
+            chk.paths_clean('independence:<%s>:%s(%s)-same-with-and-without-a-<%s>-solution-and-leaves-it-untouched' % (scalar, aname, sig, other),
+                            [] if (ra == rb and not touched) else [tm.TRUE], key='independence:%s(%s)' % (aname, sig), family='independence',
+                            sample=dict(obligation=aname, alone=str(ra)[:300], with_other=str(rb)[:300], touched=touched),
+                            replay=two_process_replay(chk, scalar, lines, '%s<%s> depends on or modifies the %s registry' % (aname, scalar, other)))
+        chk.bounds['independence_entry_points_%s' % scalar.replace(' ', '_')] = swept
     # ---- bounded exploration of API SEQUENCES from the empty registry (concrete handles, symbolic parameter values):
     #      catches state that the one-step check's constructed pre-states do not contain (e.g. a cached 'last selected' name)
     depth = 4 if chk.tier == 'quick' else 5
